@@ -518,10 +518,82 @@ def build_do_get():
     return r
 
 
+# --------------------------------------------------------------------------------------------- backtracking on a convex quadratic
+def build_backtrack_convexq():
+    """real body of lsearchk_backtrack_t::do_get with EVERY evaluation returning phi(t) = qa t^2 + g0d t + qc (qa > 0): whenever Armijo fails at the current
+    step t, the interpolation mode is cubic or quadratic and the exact minimiser lies inside the safeguarded interval [safeguard*t, (1-safeguard)*t], the next
+    evaluated step IS the exact minimiser, and (c1 <= 1/2) Armijo holds there -- the test at the top of the next iteration returns success.
+    interpolate is used through its proved clause convexq/interpolate/exact; has_armijo through its proved formula (pred/has_armijo)."""
+    phi = lambda t: f'(+ (* qa {t} {t}) (* g0d {t}) qc)'
+    dphi = lambda t: f'(+ (* 2.0 qa {t}) g0d)'
+
+    def h_interp(wp, n, args, callee):
+        u, v = step_smt.step_of(wp, args[0]), step_smt.step_of(wp, args[1])
+        r = wp.fresh('Real', 'interpolate', 'double')
+        wp.assume(interp_smt.interpolate_clause([x.t for x in u], [x.t for x in v], r.t, 'mode_cubic_or_quadratic', b='g0d'))
+        return r
+
+    def h_clamp(wp, n, args, callee):
+        lo, hi = (wp.conv(wp.ev(a), 'Real', 'double') for a in args[1:3])
+        wp.clamps.append((lo.t, hi.t))
+        return step_smt.h_clamp(wp, n, args, callee)
+
+    def h_update(wp, n, args, obj):
+        r = step_smt.h_update(wp, n, args, obj)
+        t = wp.env['state.t'].t
+        wp.env['state.fx'], wp.env['state.dg'] = V(phi(t), 'Real', 'double'), V(dphi(t), 'Real', 'double')      # every evaluation returns the quadratic
+        wp.upd.append(t)
+        return r
+
+    def h_armijo(wp, n, args, obj):
+        t, c1 = (wp.conv(wp.ev(a), 'Real', 'double') for a in args[2:4])
+        return V(f'(<= {wp.env["state.fx"].t} (+ f_0 (* {t.t} (* {c1.t} g0d))))', 'Bool', 'bool')       # proved: pred/has_armijo
+
+    def setup(wp):
+        step_smt.doget_setup(wp)
+        wp.upd = []
+        for nm in ('qa', 'qc'):
+            wp.const(nm, 'Real', 'double')
+        wp.const('mode_cubic_or_quadratic', 'Bool', 'bool')
+        wp.assume('(< g0d 0.0)')
+        wp.assume(f'(and (> qa 0.0) (= f_0 qc) (= f_in {phi("t0")}) (= gd_in {dphi("t0")}))')
+
+    def inv(wp):
+        e = wp.env
+        t = e['step_size'].t
+        return [('loop counter in range', step_smt.counter(wp, 0)), ('trial step > 0', f'(> {t} 0.0)'),
+                ('the state is the evaluation of the quadratic at the current trial step', f'(and (= {e["state.t"].t} {t}) (= {e["state.fx"].t} {phi(t)}) (= {e["state.dg"].t} {dphi(t)}))')]
+
+    def body_post(wp, H, e):
+        if len(wp.upd) != 1 or len(wp.clamps) != 1:
+            raise Unsupported(f'{wp.name}: {len(wp.upd)} evaluations / {len(wp.clamps)} clamps in the loop body (the scenario expects one of each)')
+        lo, hi = wp.clamps[0]
+        within = f'(and mode_cubic_or_quadratic (<= (* 2.0 qa {lo}) (- g0d)) (<= (- g0d) (* 2.0 qa {hi})))'
+        wp.oblige('exact_step: cubic / quadratic mode and the minimiser inside the safeguarded interval: the next evaluated step is the exact minimiser (2 a t = -b)',
+                  IMP(within, f'(= (* 2.0 qa {wp.upd[0]}) (- g0d))'))
+        wp.oblige('then_armijo: ... and for c1 <= 1/2 Armijo holds at the new trial state (the test at the top of the next iteration succeeds)',
+                  IMP(AND(within, '(<= c1 0.5)'), f'(<= {e["state.fx"].t} (+ f_0 (* {e["step_size"].t} (* c1 g0d))))'))
+        wp.oblige('scenario_canary (the negated claim is the scenario itself: must be satisfiable)', NOT(within))
+        return []
+    inv = step_smt.with_havoc(inv)
+    inv.body_post = body_post
+    r = step_smt.mk('convexq/backtrack_do_get', 'src/lsearchk/backtrack.cpp', 'lsearchk_backtrack_t::do_get', 'do_get', setup, {1: inv},
+                    'backtracking on a convex quadratic: the interpolated step is the exact minimiser unless the safeguard cuts it (double treated as real)',
+                    post=lambda wp, rv: [], calls=[(r'^interpolate\|', h_interp), (r'^clamp\|const double &', h_clamp)],
+                    members=[(r'^update\|.*lsearchk', h_update), (r'^has_armijo\|', h_armijo)])
+    for v in r[0]:
+        if 'scenario_canary' in v.name:
+            v.expect = 'sat'
+    return r
+
+
 def build(tier='quick'):
     vcs = dcstep_vcs(tier) + contract_vcs() + convexq_vcs()
     fns = [dcstep()['fn']]
     r = build_do_get()
+    vcs += r[0]
+    fns.append(r[1])
+    r = build_backtrack_convexq()
     vcs += r[0]
     fns.append(r[1])
     return vcs, fns
